@@ -1014,7 +1014,7 @@ def run_unit(stats, uidx, unit):
         stats.evaluations += 1
         stats.transitions += 2
         stats.counters['roundtrip_lists'] += 1
-        stats.state(hash(('rt', tuple(len(d) for d in datas))))
+        stats.state(core.h64(('rt', tuple(len(d) for d in datas))))
         for clause, detail in check_roundtrip(datas):
             stats.violation('roundtrip/{}:{}'.format(','.join(str(len(d)) for d in datas), clause),
                             {'space': 'roundtrip', 'datas': [d if len(d) < 20 else {'flag': d[0], 'len': len(d)} for d in datas]},
@@ -1026,7 +1026,7 @@ def run_unit(stats, uidx, unit):
             stats.transitions += 4
             stats.counters['equiv_sets'] += 1
             if len(datas) > 1 or pol or fe:
-                stats.nontriv(hash(('eq', uidx, ci)))
+                stats.nontriv(uidx * 16384 + ci)
             for clause, detail in check_equiv(datas, pol, fe):
                 stats.violation('equiv/{}/pol={},fe={}'.format('+'.join(''.join('%02X' % b for b in d) for d in datas), pol, fe),
                                 {'space': 'equiv', 'datas': datas, 'polarity': pol, 'first_edge': fe}, detail,
